@@ -40,7 +40,16 @@ RULE = ('fault enumeration: for k<=4 scripted providers every assignment of outc
         'cache and the cache stays partly filled after a successful query; every history over {address history of '
         'two addresses (whole / limited), balance, unspent outputs, the transaction itself, its block} x provider '
         'health, every call judged as before and the coverage claim (last_block) of the cached address records '
-        'checked against the transactions the cache may hold.  A state is a distinct (configuration, fault '
+        'checked against the transactions the cache may hold; answers the service limits or replaces: the fee '
+        'estimate of a responding provider lies in every value class relative to the fee range of the network '
+        'definition (1, below the lowest fee, lowest-1, lowest, lowest+1, highest-1, highest, highest+1, far above, a '
+        'different class per fee class / per provider), on a network with and one without a default fee, so that '
+        'the provider\'s figure, the answer of the call and the stored figure can differ; every history over '
+        '{estimate for 1 / 3 / 5 / default / 10 / 25 blocks and by priority} x provider health (incl. a first provider '
+        'answering 0 / None) x {reopen, +61 s, +601 s}, the answer of a call that asked a provider must be that '
+        'provider\'s figure or that figure limited to the range, the answer of a call that asked nobody must be '
+        'exactly the answer the storing call returned; the same value classes under every failure pattern of k<=3 '
+        'providers.  A state is a distinct (configuration, fault '
         'assignment, cache state) combination, a transition is one Service call executed on the real '
         'code, every executed call is compared with the reference failover function / cache model; an '
         'evaluation is non-trivial when at least one provider method was invoked or a cached answer was served')
@@ -58,10 +67,16 @@ ASSUMPTIONS = [
     'skipped; whether it is listed in `errors` / counted is not demanded',
     '`[]`, `0`, `{}`, `None`, \'\' and wrong-typed answers are answers of a responding provider: passing them '
     'through unchanged, skipping that provider as failed, or failing the call are all accepted; altering them is not',
-    'estimatefee: clamping to the network fee_min/fee_max and the treatment of a falsy estimate (0/None) '
-    'answered by a provider are fee policy and not judged; ok values are chosen inside the bounds',
+    'estimatefee: whether the estimate of a responding provider is returned as it is or limited to the fee range '
+    '(fee_min .. fee_max of the network definition, golden copy FEE_BOUNDS in this module) is fee policy: both are '
+    'accepted for a call that asked a provider, any other figure is not; the treatment of a falsy estimate (0/None) '
+    'answered by a provider (network default fee, or failure) is fee policy too and the figure returned for it may be '
+    'cached.  Whatever the policy is, a later call answered without asking a provider must return exactly the figure '
+    'the storing call returned (per fee class, for 600 s)',
     'estimatefee cache keys are the three documented buckets (<=1, <=5, >5 blocks); aliasing inside a '
-    'bucket is not judged',
+    'bucket is not judged.  Without a priority the providers must be asked for exactly the number of blocks of the '
+    'call (default 5); which number a priority stands for is not documented and free, as long as \'low\' is a target '
+    'of the class low (> 5 blocks) and \'high\' is not',
     'max_providers=None is refused by the constructor with TypeError (documented type is int): not part of '
     'the property, recorded as outcome only',
     'confirmations of a cached transaction are recomputed from the block count and are not compared',
@@ -519,6 +534,7 @@ class _Env:
     ctor_args = None
     pe = []            # one record per Service._provider_execute
     forms = {}         # transaction name -> completeness form of the providers' copies (str, or list per provider)
+    vals = {}          # method -> value class of the providers' ok answers (str, or list per provider)
 
 
 E = _Env
@@ -537,6 +553,7 @@ def reset_env(net=NET):
     E.shuffled = None
     E.pe = []
     E.forms = {}
+    E.vals = {}
 
 
 class _FakeRandom:
@@ -566,6 +583,57 @@ class _FakeDatetime(_real_datetime):
         return T0 + timedelta(seconds=E.clock)
 
 
+# Value classes of a responding provider's fee estimate.  The service does not hand a fee estimate through as it
+# is: the network definition carries a lowest and a highest fee per kB and the estimate is limited to that range
+# (and a falsy estimate is replaced by the network's default fee) BEFORE it is returned and stored.  So where the
+# provider's figure lies relative to these bounds is a dimension of the `ok` outcome of its own: only outside the
+# range do "the provider's answer", "the answer of the call" and "what the cache holds" differ.
+# (fee_min, fee_max, fee_default) in satoshi per kB, copied from the network definitions (bitcoinlib/data/networks.json)
+FEE_BOUNDS = {'bitcoin': (1000, 1000000, None), 'testnet': (1000, 2000000, 10000)}
+FEE_CLASSES = ('in', 'one', 'below', 'min-1', 'min', 'min+1', 'max-1', 'max', 'max+1', 'far', 'spread')
+
+
+def fee_value(cls, pidx, blocks, net):
+    """The fee estimate provider pidx answers for `blocks` in value class cls.  The classes in / one / below / far
+    carry the provider index and the confirmation target, the boundary classes are the exact figure; `spread` is a
+    congested network: far above the highest fee for the next block, in range up to 5 blocks, below the lowest
+    fee for more."""
+    lo, hi, _ = FEE_BOUNDS[net]
+    if cls == 'spread':
+        cls = 'far' if blocks <= 1 else 'in' if blocks <= 5 else 'below'
+    if cls == 'in':
+        return 20000 + 1000 * pidx + blocks
+    if cls == 'one':
+        return 1 + pidx
+    if cls == 'below':
+        return lo // 2 + 30 * pidx + blocks % 30
+    if cls == 'far':
+        return 250 * hi + 1000 * pidx + blocks
+    if cls in ('min-1', 'min', 'min+1'):
+        return lo + {'min-1': -1, 'min': 0, 'min+1': 1}[cls]
+    if cls in ('max-1', 'max', 'max+1'):
+        return hi + {'max-1': -1, 'max': 0, 'max+1': 1}[cls]
+    raise HarnessBug('unknown fee value class %r' % (cls,))
+
+
+def fee_limited(value, net):
+    """Reference: the estimate limited to the fee range of the network definition."""
+    lo, hi, _ = FEE_BOUNDS[net]
+    return min(max(value, lo), hi)
+
+
+def val_class(method, pidx):
+    """Value class of provider pidx's ok answers for the method (scripted per history / case in E.vals)."""
+    v = E.vals.get(method, 'in')
+    if not isinstance(v, str):
+        v = v[pidx] if pidx < len(v) else 'in'
+    return v
+
+
+def vals_tag(vals):
+    return ','.join('%s=%s' % (k, v if isinstance(v, str) else '/'.join(v)) for k, v in sorted(vals.items()))
+
+
 def ok_value(method, pidx, args, net):
     c = fx().by_net[net]
     if method == 'getbalance':
@@ -590,7 +658,7 @@ def ok_value(method, pidx, args, net):
     if method == 'blockcount':
         return 200 + pidx
     if method == 'estimatefee':
-        return 20000 + 1000 * pidx + args[0]
+        return fee_value(val_class(method, pidx), pidx, args[0], net)
     if method == 'getblock':
         blockid, parse_transactions, page, limit = args
         return block_dict(c, blockid, pidx, parse_transactions, page, limit, net)
@@ -945,6 +1013,15 @@ def value_matches(method, net, pidx, cls, pargs, val, req_args):
             return None
         if method == 'isspent':
             return None if val is bool(exp) else 'differs'
+        if method == 'estimatefee':
+            # the provider's figure itself, or that figure limited to the fee range of the network definition
+            # (which of the two is fee policy); anything else is a figure no provider returned
+            if _same_plain(val, exp) or _same_plain(val, fee_limited(exp, net)):
+                return None
+            lo, hi, _ = FEE_BOUNDS[net]
+            if _same_plain(val, lo) or _same_plain(val, hi):
+                return 'fee_limited_to_the_wrong_bound'
+            return 'fee_neither_provider_answer_nor_that_answer_limited_to_the_network_fee_range'
         return None if _same_plain(val, exp) else 'differs'
     if cls == 'empty':
         exp = EMPTY[method]
@@ -1159,6 +1236,9 @@ def sub_fo(case):
     maxe = cfg.get('max_errors', 4)
     cfgid = '%s/%s/%d%d%d%s/%s' % (setname, net, minp, cfg.get('max_providers', 1), maxe,
                                   'i' if cfg.get('ignore_priority') else '', ''.join('%d' % (r * 10) for r in case['ranks']))
+    vals = case.get('vals') or {}
+    if vals:
+        cfgid += '/' + vals_tag(vals)
     srv = None
     db = None
     tmp = [None]
@@ -1171,6 +1251,7 @@ def sub_fo(case):
                     if db:
                         env.remove_db(db)
                     reset_env(net)
+                    E.vals = vals
                     E.ranks = case['ranks']
                     E.perm = case.get('perm')
                     db = env.fresh_db_path('c20') if case['cache'] == 'cold' else None
@@ -1180,7 +1261,7 @@ def sub_fo(case):
                 E.static = {(i, method): 'nomethod' for i in range(k) if outc[i] == 'nomethod'}
                 E.counts = {}
                 E.shuffled = None
-                args = call_args(method, net)
+                args = call_args(method, net, case.get('key', 'A'))
                 pargs = provider_args(method, args)
                 mp, me, order = maxp, maxe, None
                 if method == 'blockcount':
@@ -1205,8 +1286,8 @@ def sub_fo(case):
                 if obs['log']:
                     nt.append('%s|%s|%s|%s' % (cfgid, case['cache'], _abbr(outc), method))
                 if dev:
-                    d = {'k': k, 'prios': prios, 'order': order, 'cfg': cfg, 'cache': case['cache'],
-                         'outcomes': outc, 'method': method, 'observed': _obs_json(obs)}
+                    d = {'k': k, 'prios': prios, 'order': order, 'cfg': cfg, 'cache': case['cache'], 'net': net,
+                         'outcomes': outc, 'method': method, 'provider_values': vals, 'observed': _obs_json(obs)}
                     d.update(detail or {})
                     devs.add('%s|%s' % (method, dev), d)
             states.append('%s|%s|%s' % (cfgid, case['cache'], _abbr(outc)))
@@ -1308,12 +1389,48 @@ def sub_multi(case):
 
 # ======================================================================================= sub: cache histories
 HEALTH = {'H': ['ok', 'ok', 'ok'], 'F': ['cerr', 'ok', 'ok'], 'D': ['cerr', 'cerr', 'cerr'],
-          'M': ['mal', 'ok', 'ok'], 'E': ['exc', 'false', 'ok']}
+          'M': ['mal', 'ok', 'ok'], 'E': ['exc', 'false', 'ok'],
+          # the first provider answers a falsy fee estimate (0 / None); other methods: healthy
+          'Z': ['empty', 'ok', 'ok'], 'N': ['none', 'ok', 'ok']}
 TXKEY = {'A': 'TA', 'B': 'TB', 'C': 'TC', 'D': 'TD', 'U': 'TU', 'K': 'K1', 'L': 'K4'}
 
 
 def fee_bucket(blocks):
     return 'high' if blocks <= 1 else 'medium' if blocks <= 5 else 'low'
+
+
+FEE_PRIORITIES = ('low', 'medium', 'high')
+
+
+def fee_event_args(key):
+    """Arguments of an estimatefee event.  key: '<n>' -> (n,); '' -> () (documented default: 5 blocks);
+    '<priority>' -> (5, priority), i.e. estimatefee(priority=...); '<n>:<priority>' -> (n, priority)."""
+    if ':' in key:
+        blocks, prio = key.split(':')
+    elif key in FEE_PRIORITIES:
+        blocks, prio = '', key
+    else:
+        blocks, prio = key, ''
+    if prio and prio not in FEE_PRIORITIES:
+        raise HarnessBug('unknown fee priority %r' % (prio,))
+    if prio:
+        return (int(blocks) if blocks else 5, prio)
+    return (int(blocks),) if blocks else ()
+
+
+def ref_fee_request(args):
+    """Reference for an estimatefee call: (exact confirmation target or None, admissible fee classes).
+    Without a priority the providers are asked for exactly the target given (default 5) and the cache class is
+    the documented one of that target.  A priority "overwrites the value supplied in blocks": which target the
+    library picks for it is not documented, only that 'low' is a fee for slow confirmation (class low) and 'high'
+    one for fast confirmation (not class low); 'medium' is the default target."""
+    blocks = args[0] if len(args) > 0 else 5
+    prio = args[1] if len(args) > 1 else ''
+    if prio == 'low':
+        return None, ('low',)
+    if prio == 'high':
+        return None, ('high', 'medium')
+    return blocks, (fee_bucket(blocks),)
 
 
 def chain_spent(c, txid, n):
@@ -1330,7 +1447,7 @@ class CacheModel(object):
     def __init__(self):
         self.tx = {}        # txid -> set of ('ok', pidx) | ('mal', other_name, pidx)
         self.blocks = {}    # height -> set of pidx
-        self.fee = {}       # bucket -> (value, expiry, fabricated)
+        self.fee = {}       # bucket -> (value returned and stored, expiry, fabricated, the provider's own figure)
         self.bc_db = None   # (set of values the stored count may have, expiry)
         self.bc_mem = None  # (set of values, time) in-memory copy of the current Service instance
         self.bc_seen = set()
@@ -1408,14 +1525,7 @@ def judge_cached(method, net, key, args, val, model, clock):
             return 'dev', 'cache|serves_spent_flag_of_other_tx_stored_under_requested_txid'
         return ('cache', None) if val is chain_spent(c, txid, n) else ('dev', 'cache|spent_flag_differs_from_stored_data')
     if method == 'estimatefee':
-        st = model.fee.get(fee_bucket(args[0]))
-        if not st:
-            return 'dev', 'cache|serves_fee_never_stored'
-        if st[1] <= clock:
-            return 'dev', 'cache|serves_expired_fee'
-        if not _same_plain(val, st[0]):
-            return 'dev', 'cache|fee_differs_from_stored'
-        return ('dev', 'cache|serves_stored_network_default_fee') if st[2] else ('cache', None)
+        return judge_cached_fee(ref_fee_request(args)[1], val, model, clock)
     if method == 'getblock':
         height, parse, page, limit = block_request(args)
         cands = model.blocks.get(height)
@@ -1429,6 +1539,29 @@ def judge_cached(method, net, key, args, val, model, clock):
             return 'dev', 'cache|block_differs_from_stored'
         return judge_cached_block_page(net, c, height, parse, page, limit, val, model)
     return 'dev', 'cache|unexpected_cache_answer'
+
+
+def judge_cached_fee(classes, val, model, clock):
+    """A fee estimate served without asking a provider: it must be the answer the service gave (and stored) when a
+    provider was last asked for this fee class, not older than 600 s.  classes: the admissible fee classes of the
+    request."""
+    sts = [model.fee[b] for b in classes if b in model.fee]
+    if not sts:
+        if any(_same_plain(val, st[0]) for b, st in model.fee.items() if st[1] > clock):
+            return 'dev', 'cache|serves_fee_stored_for_another_confirmation_class'
+        return 'dev', 'cache|serves_fee_never_stored'
+    live = [st for st in sts if st[1] > clock]
+    if not live:
+        return 'dev', 'cache|serves_expired_fee'
+    hit = [st for st in live if _same_plain(val, st[0])]
+    if hit:
+        return ('dev', 'cache|serves_stored_network_default_fee') if hit[0][2] else ('cache', None)
+    if any(st[3] is not None and _same_plain(val, st[3]) for st in live):
+        # the provider's own figure, where the call that fetched it returned that figure limited to the fee range
+        return 'dev', 'cache|serves_provider_fee_unlimited_where_the_call_returned_it_limited_to_the_fee_range'
+    if any(_same_plain(val, st[0]) for b, st in model.fee.items() if b not in classes and st[1] > clock):
+        return 'dev', 'cache|serves_fee_stored_for_another_confirmation_class'
+    return 'dev', 'cache|fee_differs_from_stored'
 
 
 def judge_cached_block_page(net, c, height, parse, page, limit, val, model):
@@ -1662,9 +1795,12 @@ def sub_hist(case):
     nt = []
     n = 0
     forms = case.get('forms') or {}
+    vals = case.get('vals') or {}
     cfgid = '%s/%s/%d%d%d' % (case['family'], net, minp, maxp, maxe)
     if forms:
         cfgid += '/' + forms_tag(forms)
+    if vals:
+        cfgid += '/' + vals_tag(vals)
     from bitcoinlib.networks import Network
     nw = Network(net)
     default_fee = min(max(nw.fee_default, nw.fee_min), nw.fee_max) if nw.fee_default else None
@@ -1677,12 +1813,15 @@ def sub_hist(case):
                 o = outc[i]
                 if o == 'mal' and m != 'gettransaction':
                     o = 'ok'
+                if o in ('empty', 'none') and m != 'estimatefee':
+                    o = 'ok'
                 E.script[(i, m)] = o
         return outc
 
     for hist in case['hists']:
         reset_env(net)
         E.forms = forms
+        E.vals = vals
         E.ranks = _ranks_for(order)
         db = env.fresh_db_path('c20h')
         model = CacheModel()
@@ -1752,7 +1891,7 @@ def sub_hist(case):
                         cut = rdev.endswith(NO_HEIGHT)
                 if dev:
                     d = {'family': case['family'], 'cfg': cfg, 'net': net, 'history': hist[:step + 1],
-                         'provider_copies': forms,
+                         'provider_copies': forms, 'provider_values': vals,
                          'clock': E.clock, 'observed': _obs_json(obs),
                          'queries': [{x: r.get(x) for x in ('method', 'called', 'errors', 'results')}
                                      for r in E.pe][:8]}
@@ -1899,7 +2038,7 @@ def hist_query(srv, model, net, c, method, key, health, outc, order, maxp, maxe,
     elif method == 'isspent':
         args = (c.txs[TXKEY[key[0]]]['txid'], int(key[1]))
     elif method == 'estimatefee':
-        args = (int(key),)
+        args = fee_event_args(key)
     elif method == 'getblock':
         args = block_event_args(key)
     elif method == 'gettransactions':
@@ -1924,6 +2063,22 @@ def hist_query(srv, model, net, c, method, key, health, outc, order, maxp, maxe,
         if not [t for t in traces if t['called'] == rec['called'] and t['errors'] == rec['errors'] and
                 t['results'] == rec['results']]:
             return 'dev', _bookkeeping_class(traces, rec), {'admissible': traces[:3]}, obs
+    if method == 'estimatefee' and first:
+        # what the providers were asked for: exactly the confirmation target of the call, or - with a priority - a
+        # target of the fee class the priority stands for; all providers of the call for the same target
+        target, classes = ref_fee_request(args)
+        asked = [tuple(l[3]) for l in first]
+        rdev = None
+        if any(len(a) != 1 or isinstance(a[0], bool) or not isinstance(a[0], int) for a in asked):
+            rdev = 'request|providers_not_asked_for_a_number_of_blocks'
+        elif len(set(asked)) > 1:
+            rdev = 'request|providers_of_one_query_asked_for_different_targets'
+        elif target is not None and asked[0][0] != target:
+            rdev = 'request|providers_asked_for_another_confirmation_target'
+        elif fee_bucket(asked[0][0]) not in classes:
+            rdev = 'request|providers_asked_for_a_target_of_another_priority'
+        if rdev:
+            return 'dev', rdev, {'call_arguments': list(args), 'providers_asked_for': [list(a) for a in asked]}, obs
     if method in ('gettransaction', 'getrawtransaction', 'isspent', 'estimatefee', 'getblock'):
         if not recs:
             if failed:
@@ -1963,11 +2118,16 @@ def hist_query(srv, model, net, c, method, key, health, outc, order, maxp, maxe,
                     for name in block_page(height, page, limit):
                         if storable(answerer, name):
                             model.tx.setdefault(c.txs[name]['txid'], set()).add(('ok', answerer))
-            if method == 'estimatefee' and cls == 'ok':
-                model.fee[fee_bucket(args[0])] = (obs['ret'], E.clock + 600, False)
+            if method == 'estimatefee':
+                if cls == 'ok':
+                    model.fee[fee_bucket(pargs[0])] = (obs['ret'], E.clock + 600, False,
+                                                       ok_value(method, answerer, pargs, net))
+                elif cls in ('empty', 'none') and obs['ret']:
+                    # a falsy estimate replaced by the network's default fee: fee policy, the figure may be cached
+                    model.fee[fee_bucket(pargs[0])] = (obs['ret'], E.clock + 600, False, None)
         if method == 'estimatefee' and recs and not failed and default_fee is not None and \
                 _same_plain(obs['ret'], default_fee) and answerer is None:
-            model.fee[fee_bucket(args[0])] = (default_fee, E.clock + 600, True)
+            model.fee[fee_bucket(pargs[0])] = (default_fee, E.clock + 600, True, None)
         return label, dev, detail, obs
     # ---- address based queries: cached part + provider part
     if failed:
@@ -2080,7 +2240,8 @@ def sub_ctor(case):
 
 
 SUBS = {'fo': sub_fo, 'fo_testnet': sub_fo, 'fo_special': sub_fo, 'fo_cold': sub_fo, 'order': sub_fo,
-        'multi': sub_multi, 'ctor': sub_ctor, 'hist': sub_hist, 'incomplete': sub_hist}
+        'multi': sub_multi, 'ctor': sub_ctor, 'hist': sub_hist, 'incomplete': sub_hist,
+        'values': sub_hist, 'values_fo': sub_fo}
 
 
 def selftest():
@@ -2164,6 +2325,48 @@ def selftest():
         assert len(set(forms_tag(t) for t in tabs)) == len(tabs)
         assert all(f in FORMS for t in tabs for v in t.values() for f in ([v] if isinstance(v, str) else v))
     assert all(t in form_tables_thorough() for t in FORM_TABLES_QUICK)
+    # fee value classes, hand-computed against the fee ranges of the network definitions
+    assert FEE_BOUNDS['bitcoin'][:2] == (1000, 1000000) and FEE_BOUNDS['testnet'][:2] == (1000, 2000000)
+    assert [fee_value(cl, 1, 3, NET) for cl in FEE_CLASSES] == \
+        [21003, 2, 533, 999, 1000, 1001, 999999, 1000000, 1000001, 250001003, 21003]
+    assert [fee_value('spread', 2, b, 'testnet') for b in (1, 5, 6)] == [500002001, 22005, 566]
+    assert [fee_limited(v, NET) for v in (1, 999, 1000, 1001, 999999, 1000000, 1000001, 250000000)] == \
+        [1000, 1000, 1000, 1001, 999999, 1000000, 1000000, 1000000]
+    assert fee_limited(1500000, 'testnet') == 1500000 and fee_limited(2000001, 'testnet') == 2000000
+    for net in NETS:
+        for cl in FEE_CLASSES:
+            for b in (1, 2, 3, 5, 10, 25):
+                v = [fee_value(cl, p, b, net) for p in range(3)]
+                inside = [FEE_BOUNDS[net][0] <= x <= FEE_BOUNDS[net][1] for x in v]
+                eff = cl if cl != 'spread' else ('far' if b <= 1 else 'in' if b <= 5 else 'below')
+                assert all(inside) == (eff in ('in', 'min', 'min+1', 'max-1', 'max')) and len(set(inside)) == 1
+                assert len(set(v)) == (3 if eff in ('in', 'one', 'below', 'far') else 1)
+    E.vals = {'estimatefee': ['below', 'far']}
+    try:
+        assert [val_class('estimatefee', p) for p in range(3)] == ['below', 'far', 'in'] and val_class('getbalance', 0) == 'in'
+        assert ok_value('estimatefee', 1, (10,), NET) == 250001010
+    finally:
+        E.vals = {}
+    assert ok_value('estimatefee', 1, (10,), NET) == 21010
+    assert fee_event_args('3') == (3,) and fee_event_args('') == () and fee_event_args('low') == (5, 'low')
+    assert fee_event_args('1:high') == (1, 'high')
+    assert ref_fee_request(()) == (5, ('medium',)) and ref_fee_request((1,)) == (1, ('high',))
+    assert ref_fee_request((6,)) == (6, ('low',)) and ref_fee_request((1, 'low')) == (None, ('low',))
+    assert ref_fee_request((5, 'high')) == (None, ('high', 'medium')) and ref_fee_request((5, 'medium')) == (5, ('medium',))
+    m = CacheModel()
+    m.fee = {'medium': (1000, 600.0, False, 533), 'low': (21010, 600.0, False, 21010)}
+    assert judge_cached_fee(('medium',), 1000, m, 10.0) == ('cache', None)
+    assert judge_cached_fee(('medium',), 533, m, 10.0)[1] == \
+        'cache|serves_provider_fee_unlimited_where_the_call_returned_it_limited_to_the_fee_range'
+    assert judge_cached_fee(('medium',), 1000, m, 600.0)[1] == 'cache|serves_expired_fee'
+    assert judge_cached_fee(('medium',), 21010, m, 10.0)[1] == 'cache|serves_fee_stored_for_another_confirmation_class'
+    assert judge_cached_fee(('high',), 21010, m, 10.0)[1] == 'cache|serves_fee_stored_for_another_confirmation_class'
+    assert judge_cached_fee(('high',), 7, m, 10.0)[1] == 'cache|serves_fee_never_stored'
+    assert judge_cached_fee(('medium',), 7, m, 10.0)[1] == 'cache|fee_differs_from_stored'
+    assert judge_cached_fee(('high', 'medium'), 1000, m, 10.0) == ('cache', None)
+    tt = val_tables_thorough()
+    assert len(set(json.dumps(t) for t in tt)) == len(tt) and all(t in tt for t in VAL_TABLES_QUICK)
+    assert all(cl in FEE_CLASSES for _, t in tt for cl in ([t] if isinstance(t, str) else t))
     assert len(prio_vectors(3)) == 13 and len(prio_vectors(4)) == 75
     assert len(assignments(4, MAIN)) == 6 ** 4 and assignments(3, MAIN)[0] == ['ok'] * 3
 
@@ -2302,6 +2505,44 @@ def form_tables_thorough():
         tabs.append({a: 'noval', b: 'noval'})
     for form in FORMS[1:]:
         tabs.append({'TA': form, 'TB': form, 'TD': form})
+    return tabs
+
+
+# answers of a responding provider that the service does not hand through as they are: a fee estimate outside the
+# fee range of the network definition (below the lowest / above the highest fee per kB, exactly on and next to the
+# bounds) is limited to the range, a falsy one replaced by the network's default fee, before the call returns and
+# stores it.  One value table per history: the value class of the providers' estimates (all providers the same
+# class, or one class per provider so that the event's provider health decides whose figure arrives).  Events: the
+# estimate for every fee class (1 / 3, 5, default / 10, 25 blocks, by priority) under every provider health, reopen,
+# the clock moved within and past the 600 s the estimate is kept.  Every call without a provider query must return
+# exactly what the call that stored the estimate returned.
+def F(key, health='H'):
+    return Q('estimatefee', key, health)
+
+
+FEE_EVENTS = [F('1'), F('3'), F('10'), F(''), F('low'), F('3', 'F'), F('10', 'F'), F('3', 'D'), F('3', 'E'),
+              F('3', 'Z'), ['R', 'H'], ['T', 61], ['T', 601]]
+FEE_EVENTS_THOROUGH = FEE_EVENTS + [F('5'), F('25'), F('high'), F('1:low'), F('medium'), F('1', 'F'), F('10', 'D'),
+                                    F('3', 'N'), F('10', 'Z'), ['R', 'D']]
+FEE_REDUCED = [F('3'), F('3', 'F'), F('10'), F('3', 'D'), ['R', 'H'], ['T', 601]]
+VAL_TABLES_QUICK = [(NET, 'below'), (NET, 'min-1'), (NET, 'max+1'), (NET, 'far'), (NET, 'spread'),
+                    (NET, ['below', 'in', 'far']), (NET, ['far', 'below', 'in']),
+                    ('testnet', 'below'), ('testnet', 'far'), ('testnet', ['in', 'far', 'below'])]
+
+
+def val_tables_thorough():
+    """Every value class from all providers on both networks; every class from the first provider only (the others
+    in range) and from all but the first; three mixed tables."""
+    tabs = []
+    for net in NETS:
+        for cls in FEE_CLASSES:
+            tabs.append((net, cls))
+    for cls in FEE_CLASSES[1:]:
+        tabs.append((NET, [cls, 'in', 'in']))
+        tabs.append((NET, ['in', cls, cls]))
+    for net in NETS:
+        for mix in (['below', 'in', 'far'], ['far', 'below', 'in'], ['in', 'far', 'below']):
+            tabs.append((net, mix))
     return tabs
 
 
@@ -2555,6 +2796,55 @@ def run(ctx):
         'events': INCOMPLETE_EVENTS, 'events_reduced': INCOMPLETE_REDUCED}
     if _want(ctx, 'incomplete'):
         ctx.pmap('incomplete', cases, chunk=1)
+    # ------------------------------------------------------------------ provider answers the service limits / replaces
+    cases = []
+    vb = {}
+    tabs = VAL_TABLES_QUICK if q else val_tables_thorough()
+    events = FEE_EVENTS if q else FEE_EVENTS_THOROUGH
+    # (thorough: the wide event alphabet for one class from all providers on bitcoin, the quick tables and the mixed
+    # tables; the quick alphabet for the other tables)
+    wide = [(net, t) for net, t in tabs if (net == NET and isinstance(t, str)) or (net, t) in VAL_TABLES_QUICK or
+            (not isinstance(t, str) and len(set(t)) == 3)]
+    plan = [(net, t, {}, events if (net, t) in wide else FEE_EVENTS, 2) for net, t in tabs]
+    deep = [VAL_TABLES_QUICK[4], VAL_TABLES_QUICK[5]]       # spread; below / in range / far by provider
+    plan += [(net, t, {'max_errors': 4}, FEE_REDUCED, 3) for net, t in deep]
+    if not q:
+        plan += [(net, t, {'max_errors': 4}, FEE_EVENTS, 3) for net, t in deep]
+        plan += [(net, t, {'max_errors': 2}, FEE_EVENTS, 2) for net, t in VAL_TABLES_QUICK]
+        plan += [(net, t, {'min_providers': 2}, FEE_EVENTS, 2) for net, t in deep]
+    for net, tab, cfg, alpha, ln in plan:
+        hs = histories(alpha, ln)
+        for ch in _chunks(hs, 48):
+            cases.append({'family': 'fee', 'net': net, 'cfg': cfg, 'vals': {'estimatefee': tab}, 'hists': ch})
+        vb['%s/%s/%s' % (net, vals_tag({'estimatefee': tab}), json.dumps(cfg, sort_keys=True))] = \
+            '%d events ^ %d = %d histories' % (len(alpha), ln, len(hs))
+    bounds['provider_values_limited_by_the_service'] = {
+        'fee_bounds': FEE_BOUNDS, 'value_classes': list(FEE_CLASSES),
+        'value_tables': ['%s:%s' % (net, vals_tag({'estimatefee': t})) for net, t in tabs], 'histories': vb,
+        'events': events, 'events_reduced': FEE_REDUCED}
+    if _want(ctx, 'values'):
+        ctx.pmap('values', cases, chunk=1)
+    # the same value classes under every failure pattern of the providers (one call, cache disabled / cold)
+    cases = []
+    for net in NETS:
+        for cls in (FEE_CLASSES if not q else ('below', 'min-1', 'max+1', 'far')):
+            for k in (1, 2, 3):
+                for cache in ('off', 'cold'):
+                    if cache == 'cold' and (k == 3 or (q and net != NET)):
+                        continue
+                    for key in ('A', 'B'):
+                        if key == 'B' and (q or cache == 'cold'):
+                            continue
+                        cases.append({'k': k, 'prios': [1] * k, 'ranks': _ranks_for(so[k]), 'net': net, 'key': key,
+                                      'cfg': {'max_errors': 4 if k < 3 else 2}, 'cache': cache,
+                                      'vals': {'estimatefee': cls}, 'methods': ['estimatefee'],
+                                      'assigns': assignments(k, MAIN)})
+    bounds['provider_values_failover'] = (
+        'estimatefee, value classes %s x networks %s x k=1..3 complete over %s, cache disabled (k=3: max_errors 2) and '
+        'cold (k<=2%s)' % (list(FEE_CLASSES) if not q else ['below', 'min-1', 'max+1', 'far'], list(NETS), MAIN,
+                          ', bitcoin only' if q else ''))
+    if _want(ctx, 'values_fo'):
+        ctx.pmap('values_fo', cases, chunk=1)
     if _want(ctx, 'ctor'):
         ctx.pmap('ctor', [{'min_providers': 1, 'max_providers': None}, {'min_providers': 2, 'max_providers': 1},
                            {'min_providers': 2, 'max_providers': None}, {'min_providers': 1, 'max_providers': 1}])
